@@ -187,7 +187,7 @@ func stackString(fn *ssa.Function, s defers.Stack) string {
 func defersCmd(args []string) int {
 	fs := flag.NewFlagSet("defers", flag.ExitOnError)
 	bounds, shard, outp := commonFlags(fs)
-	budget := fs.Int("budget", 30, "per-function wall budget in seconds")
+	budget := fs.Int("budget", 10, "per-function wall budget in seconds")
 	fs.Parse(args)
 	funcs := deferFuncs(*bounds)
 	si, sn := parseShard(*shard)
